@@ -29,6 +29,7 @@ func checkC04(c *Check, a *Anchors) {
 	stateAbsentMeansStale(c, a)
 	c05Generates(c, a)       // "its generates files still exist": every generates entry is checked on its own
 	c03CmdIgnoreScoped(c, a) // a cancelled or failed attempt reaches the rollback only if the command runner does not swallow its error
+	timestampFullResolution(c, a, "timestamp-full-resolution")
 }
 
 // fpWriteDryGuarded: every state write in internal/fingerprint is on the false edge of the checker's dry flag.
@@ -90,6 +91,30 @@ func checkerConstruction(c *Check, a *Anchors, rule string) {
 		})
 	}
 	c.Floor(rule, n, 5)
+	// every entry function of the fingerprint package that takes checker options (IsTaskUpToDate, an OnError entry …) is
+	// handed a dry flag by its callers in package task: an absent WithDry means dry=false, whatever mode the executor is in
+	for _, fb := range c.P.BodiesIn(PkgTask) {
+		info := fb.Info()
+		for _, call := range callsIn(fb, false) {
+			fn, ok := callee(info, call).(*types.Func)
+			if !ok || fn.Pkg() == nil || fn.Pkg().Path() != PkgFingerprint {
+				continue
+			}
+			sig := fn.Type().(*types.Signature)
+			if !sig.Variadic() || sig.Params().Len() == 0 {
+				continue
+			}
+			last := sig.Params().At(sig.Params().Len() - 1).Type()
+			sl, ok := last.(*types.Slice)
+			if !ok || !isNamed(sl.Elem(), PkgFingerprint, "CheckerOption") {
+				continue
+			}
+			kind := dryOptionKind(c, info, fb, call)
+			okKind := kind == "true" || kind == "Executor.Dry" || kind == "param" || kind == "CheckerConfig.dry"
+			c.Decide(okKind, rule, ordinal(ord, "options-carry-dry "+fn.Name()+"@"+fnDisplay(fb.Root())), call.Pos(), "the options carry the dry flag ("+kind+")",
+				"fingerprint."+fn.Name()+" is called from "+fnDisplay(fb.Root())+" with a dry flag that is "+kind+": the checker it builds runs with dry=false, so in a dry run (or a --status / --list query) this call writes or removes fingerprint state")
+		}
+	}
 	// constructors store their parameter
 	for _, nm := range []string{"NewTimestampChecker", "NewChecksumChecker"} {
 		fb := c.P.Func(PkgFingerprint, "", nm)
@@ -161,7 +186,12 @@ func c04Rollback(c *Check, a *Anchors) {
 		}
 		iu := p.EventIndex("uptodate", "call")
 		if iu < 0 {
-			continue
+			// a forced run skips the check but not the obligation: an earlier run's record must not survive a failed attempt
+			// either, so a path that ran a command and fails is judged from that command on
+			if iu = p.EventIndex("cmd", "call"); iu < 0 {
+				continue
+			}
+			iu--
 		}
 		out := p.Out[len(p.Out)-1]
 		if out == "nil" {
